@@ -23,7 +23,7 @@ def c05_known(k, w):
 def run_basic(prop, tier, seed, gen_kwargs=None):
     chk = core.Check(prop, "exploration", tier, seed)
     rng = chk.rng("gen")
-    n_gram = {"quick": 36, "thorough": 220}[tier]
+    n_gram = {"quick": 56, "thorough": 220}[tier]
     if prop in ("C04", "C05"):
         gk = dict(modes=("user", "user", "unit", "pick"), sugar=0.10)
     elif prop == "C02":
